@@ -63,8 +63,10 @@ class C15(fw.Prop):
         def impl():
             from dlms_cosem import cosem, enumerations as en
             from dlms_cosem.parsers import ProfileGenericBufferParser, ColumnValue
+            # (same_clock: the one clock object of the meter captured in several columns - equal capture objects)
             caps = [cosem.CosemAttribute(en.CosemInterface.CLOCK if c else en.CosemInterface.REGISTER,
-                                         cosem.Obis(1, 0, j, 8, 0, 255), 2) for j, c in enumerate(clocks)]
+                                         cosem.Obis(0, 0, 1, 0, 0, 255) if (c and d.get("same_clock")) else cosem.Obis(1, 0, j, 8, 0, 255), 2)
+                    for j, c in enumerate(clocks)]
             ids = {}
 
             FALSY = {0: 0, 1: False, 2: b"", 3: []}      # value ids 0..3 stand for transmitted values that are falsy in Python
@@ -299,6 +301,12 @@ class C15(fw.Prop):
                 yield self.make_case({"op": "entries", "period": 15, "clocks": clocks, "rows": rows})
                 if falsy != 1:
                     yield self.make_case({"op": "entries", "period": 15, "clocks": clocks, "rows": rows, "via_bytes": True})
+        # the same clock object captured in two or three columns (equal capture objects), nulls in either
+        for clocks in ([True, True], [True, False, True], [False, True, False, True, True], [True, False, False, True]):
+            for pattern in ("alt", "none", "all"):
+                d = {"op": "entries", "period": 15, "clocks": clocks, "rows": gen_buffer(5, len(clocks), clocks, pattern, rng.choice([0, 60])), "same_clock": True}
+                yield self.make_case(d)
+                yield self.make_case(dict(d, via_bytes=True))
         # clock column in every position of a 12-column buffer
         for c in range(12):
             clocks = [j == c for j in range(12)]
